@@ -367,6 +367,9 @@ func (c *Contracts) loadContractFile(path, pkgPath string) {
 			name := fields[0]
 			cur = &FuncContract{File: path, PkgPath: pkgPath, Name: name, IsInterface: kw == "interface", Loops: map[string]*LoopSpec{}, Line: st.line}
 			key := qualify(name, pkgPath)
+			if kw == "interface" && pkgPath != "" && strings.Count(name, ".") == 1 && !strings.Contains(name, "/") {
+				key = shortPkg(pkgPath) + "." + name // Type.Method of this package, also for unexported types
+			}
 			if _, dup := c.Funcs[key]; dup {
 				c.errf("%s: duplicate contract for %s", pos, key)
 			}
